@@ -11,12 +11,12 @@ def wf(prog):
     for o in prog:
         if mine <= 0:
             return False
-        mine += {"s": 0, "c": 1, "x": -1}[o]
+        mine += {"s": 0, "b": 0, "c": 1, "x": -1}[o]
     return True
 
 
 def nsteps(prog):
-    return 2 * len(prog) + 1
+    return 2 * len(prog) + 1 + 2 * prog.count("b")
 
 
 def gen_cases(tier, seed):
@@ -32,6 +32,26 @@ def gen_cases(tier, seed):
         counts = [5 * nd, nsteps(a), nsteps(b)]
         for sch in p_c03.interleavings(counts, per, rnd):
             cases.append("%d %d | %s;%s | %s" % (bound, nd, a, b, "".join(map(str, sch))))
+    # blocking SyncSender::send on bounded channels (b), mixed with try_send, clone and drop
+    withb = [p for n in range(1, 4) for p in map("".join, itertools.product("sbx", repeat=n)) if wf(p) and "b" in p]
+    for _ in range(70 if tier == "quick" else 1500):
+        k = rnd.randint(1, 2)
+        progs = [rnd.choice(withb)] + [rnd.choice(small + withb) for _ in range(k - 1)]
+        rnd.shuffle(progs)
+        bound = rnd.choice([1, 1, 2])
+        nd = rnd.randint(2, 4)
+        pool = [0] * (7 * nd) + [i + 1 for i, p in enumerate(progs) for _ in range(nsteps(p))]
+        rnd.shuffle(pool)
+        cases.append("%d %d | %s | %s" % (bound, nd, ";".join(progs), "".join(map(str, pool))))
+    # directed: the queue is filled, the blocking send has made its try_send and that ping, and the loop takes k steps (poll,
+    # drain, try_recv ..., Empty) before the blocking mpsc send itself starts
+    for bound in (1, 2):
+        for tail in ("", "s", "b", "x"):
+            for k in range(0, 7):
+                prog = "s" * bound + "b" + tail
+                sch = [1] * (2 * bound + 2) + [0] * k + [1] * 2
+                cases.append("%d 3 | %s | %s" % (bound, prog, "".join(map(str, sch))))
+                cases.append("%d 3 | %s;%s | %s" % (bound, "s" * bound, "b" + tail, "".join(map(str, [1] * (2 * bound) + [2, 2] + [0] * k + [2, 2]))))
     for _ in range(500 if tier == "quick" else 20000):
         k = rnd.randint(1, 3)
         progs = []
@@ -50,7 +70,7 @@ def gen_cases(tier, seed):
 
 
 def strip(out):
-    return " ".join(t for t in out.split() if not t.startswith(("FULL", "DISC")))
+    return " ".join(t.replace(":blocked", "") for t in out.split() if not t.startswith(("FULL", "DISC")))
 
 
 def judge(case, out):
@@ -58,8 +78,13 @@ def judge(case, out):
     progs = progs.split(";")
     toks = out.split()
     fails = []
-    if "HANG" in toks or "PANIC" in toks or "BAD" in toks:
-        return ["hang/panic: %s" % out[-80:]]
+    if "PANIC" in toks or "BAD" in toks:
+        return ["panic: %s" % out[-80:]]
+    hang = "HANG" in toks
+    has_b = any("b" in p for p in progs)
+    if hang and not has_b:
+        return ["hang: %s" % out[-80:]]
+    toks = [t.replace(":blocked", "") for t in toks if t != "HANG"]
     # what each thread sent successfully: its k-th 's' has value t*100+k; a FULL/DISC token right after the send steps marks a failed one.
     delivered = [int(t[1:]) for t in toks if t[0] == "M"]
     closed = [i for i, t in enumerate(toks) if t == "CLOSED"]
@@ -72,7 +97,7 @@ def judge(case, out):
     for t, vs in per.items():
         if vs != sorted(vs):
             fails.append("messages of sender thread %d were delivered out of send order: %s" % (t, vs))
-        nsend = progs[t - 1].count("s") if 0 < t <= len(progs) else 0
+        nsend = (progs[t - 1].count("s") + progs[t - 1].count("b")) if 0 < t <= len(progs) else 0
         if any(v % 100 >= nsend for v in vs):
             fails.append("a message that was never sent was delivered: %s" % vs)
     if len(closed) > 1:
@@ -104,15 +129,37 @@ def judge(case, out):
             prev = [v for v, j in sent if v // 100 == int(tid) and j < i and v not in failed]
             if prev:
                 failed.add(prev[-1])
-    ok_sent = [v for v, _ in sent if v not in failed]
-    if delivered != ok_sent[:len(delivered)]:
+    # a blocking send must be delivered once it has returned Ok (OK<tid>); it may be delivered from its try_send step on; it
+    # enqueues at an unobserved moment, so the global order of such cases is left to the comparison with the model
+    blocking = {}
+    for t_i, p in enumerate(progs):
+        k = nbl = 0
+        for o in p:
+            if o in "sb":
+                if o == "b":
+                    nbl += 1
+                    blocking[(t_i + 1) * 100 + k] = nbl
+                k += 1
+    oks = {}
+    for t in toks:
+        if t.startswith("OK"):
+            oks[int(t[2:])] = oks.get(int(t[2:]), 0) + 1
+    accepted = [v for v, _ in sent if v not in failed]
+    ok_sent = [v for v in accepted if v not in blocking or blocking[v] <= oks.get(v // 100, 0)]
+    if has_b:
+        if any(v not in accepted for v in delivered):
+            fails.append("a message that was never sent was delivered: %s, sent %s" % (delivered, accepted))
+    elif delivered != ok_sent[:len(delivered)]:
         fails.append("delivery order %s is not a prefix of the enqueue order %s" % (delivered, ok_sent))
     # completeness: after the last step of every sender the loop still made 4 dispatches
     last_sender_step = max([i for i, t in enumerate(toks) if ":" in t and not t.startswith("0:")] + [-1])
     polls_after = len([1 for i, t in enumerate(toks) if t == "0:132" and i > last_sender_step])
+    if hang and polls_after >= 3:
+        fails.append("a sender stays blocked in SyncSender::send although the loop kept dispatching after the last sender step")
     if polls_after >= 3:
-        if len(delivered) != len(ok_sent):
-            fails.append("stranded: %d of %d successfully sent messages were never delivered although the loop kept dispatching" % (len(ok_sent) - len(delivered), len(ok_sent)))
+        missing = [v for v in ok_sent if v not in delivered]
+        if missing:
+            fails.append("stranded: %d of %d successfully sent messages were never delivered although the loop kept dispatching: %s" % (len(missing), len(ok_sent), missing))
         if senders == 0 and not closed:
             fails.append("no Closed event although every sender was dropped and the loop kept dispatching")
     if closed and senders != 0:
@@ -125,7 +172,8 @@ def main(tier, seed):
     st = vlib.standard_front(chk)
     chk.assumptions = ["granularity: one mpsc enqueue/try_send, sender-count change, eventfd write/read, poll or try_recv per scheduler step",
                        "std::sync::mpsc is an assumed linearizable FIFO with the usual disconnect rule; validated by these runs",
-                       "covers Sender::send on channel() and SyncSender::try_send on sync_channel(n>=1); blocking SyncSender::send and sync_channel(0): see known finding F9",
+                       "covers Sender::send on channel(), SyncSender::try_send and the blocking SyncSender::send on sync_channel(n>=1); sync_channel(0): see known finding F9",
+                       "a sender blocked on the full queue is detected from /proc task state and waited for after every step of another thread (it continues as soon as there is room: mpsc's contract)",
                        "batch limits at and above 1024 are exercised sequentially (BulkSend) by the sequential checks"]
     if not (st.get("harness_ok") and st.get("model_ok")):
         chk.violation("build", "correspondence broken: build failed\n%s\n%s" % (st.get("harness_log", "")[-2000:], st.get("model_log", "")[-2000:]), nofail=True)
